@@ -7,6 +7,15 @@ NOTES = ("All checks: bin/check <id>. Each run regenerates coq/Gen from /repo, r
          "Known findings: KNOWN_FINDINGS.txt.")
 NOT_APPLICABLE = {}
 CLAIMED = {
+    "C04": {
+        "text": "Theorems: text without any table key passes through byte for byte and is reported unmodified (any line endings); a key at the current position "
+                "is replaced by the first matching pair, so 'F.go:1' wins over its prefix 'F.go'; identifier nodes and IDENT tokens align once the dot of dot "
+                "imports is skipped (refuted otherwise: the fixed defect); a call head on one line reverses to the regular build's line, refuted for heads "
+                "spanning lines (known finding F5). Tied by real builds of a call-shape program under several configurations: Caller/FuncForPC lines and a "
+                "panic trace of the garbled binary, reversed, against the -trimpath build, plus black-box passthrough texts.",
+        "note": "Trusted: Coq kernel; naive_replace as the spec of strings.NewReplacer (C08 proves the trie against it); gc's position assignment (e2e only). No axioms.",
+        "technique": "Coq proof over a hand model of the replacement table and position arithmetic + differential reverse runs on real builds",
+    },
     "C05": {
         "text": "Round-trip theorems, for all data, lengths and random choices: the external-key layer, key-combined byte literals, simple, swap (repeated and "
                 "coinciding positions included), seed, shuffle (any permutation), the string junk wrapper and the byte-array copy. The model decoders are tied "
